@@ -23,13 +23,27 @@ def run(ctx):
             ctx.seed += 1000
             ctx.corr(hx, ["run", "--n", "1500", "--free", "300"], cases_name="cases%d.v" % k, timeout=900)
         ctx.seed -= 5000
+        ctx.corr(hx, ["run", "--debug", "--n", "1500", "--free", "300", "--debounce", "400"], cases_name="cases_debug.v", timeout=900)
         ctx.corr(hx, ["group", "--n", "1500", "--free", "150", "--watch", "60", "--watchrounds", "400"], cases_name="gcases.v", timeout=900)
         ctx.corr(hx, ["waiters", "--n", "400"], cases_name="wcases.v", timeout=900)
     else:
         ctx.corr(hx, ["run", "--n", "500", "--free", "60"], timeout=300)
+        # the same families again with debug.SetEnabled(true) (runtime/debug: process-global, hence a child process of the
+        # harness; a child that dies - a panic in a worker goroutine - is reported with the case that was running)
+        ctx.corr(hx, ["run", "--debug", "--n", "60", "--free", "16", "--debounce", "20"], cases_name="cases_debug.v", timeout=300)
         ctx.corr(hx, ["group", "--n", "150", "--free", "20"], cases_name="gcases.v", timeout=300)
         ctx.corr(hx, ["waiters", "--n", "60"], cases_name="wcases.v", timeout=300)
     ctx.assumptions += [
+        "the model has no mode: the pool is assumed to be observationally the same with debug.SetEnabled(true) (runtime/debug, "
+        "process-global; mode-dependent sites: task.go newTask stack trace, Task.run deadlock detector, its 5 s report) and without; "
+        "tied to the code by running the scripted, free-running and DebounceFunc families of `run` in both modes (child process "
+        "of the harness for the debug mode) with the same oracles and the same Coq model, plus directed cases that switch the "
+        "mode while tasks execute or are queued; the detector only prints after debug.DeadlockDetectionTimeout and its output "
+        "is not compared",
+        "WorkerPool.DebounceFunc is not modelled in Coq: its wrapper tasks are ordinary tasks of the pool model provided they "
+        "terminate; that they do (execution mutex released on every path), that of a burst only the latest invocation runs "
+        "behind an executing one, exactly once, and never two at a time is judged by the Go-side oracle of the debounce family "
+        "(gated bursts on 1..4 workers, several rounds and debouncers, Shutdown while a burst is pending)",
         "tasks terminate and block on nothing but their own nested Submit calls (harness: gated tasks are schedule restrictions of the runner, not part of the model's steps)",
         "at least one worker (WithWorkerCount >= 1)",
         "the pool theorems hold for every worker count n >= 1; the correspondence samples n in 1..4 and, since round 2, large n too: NumCPU-1..NumCPU+1, 2*NumCPU-1..2*NumCPU+1 (2*NumCPU = the default when WithWorkerCount is left out), 4*NumCPU, 4*NumCPU+1 (values in evidence coverage.extra.c16_worker_counts_sampled), each with all workers executing gated, re-submitting tasks at the moment of Shutdown",
